@@ -327,6 +327,100 @@ def make_seeds():
     return fn
 
 
+# ------------------------------------------------------------------ O5: two specs cleaned by one cleaner, the second one scheduled between two lines of the first
+B_OPTIONS = [{"no_redact": True, "no_obfuscate": ["keyword", "password"]}, {"no_redact": True}, {"no_obfuscate": ["password"]}, {"allowlist": [("keep", 1)]}, {}]
+A_OPTIONS = [{}, {"allowlist": [("keep", 2), ("word", 5)]}, {"no_obfuscate": ["keyword"]}]
+
+
+class Yielding(list):
+    """the content of spec A: before its k-th line is handed out, whatever `hook` does happens (another collection thread that
+    shares the cleaner gets the processor between two lines)"""
+    hook, at, seen = None, -1, 0
+
+    def _tick(self):
+        if self.seen == self.at and self.hook is not None:
+            h, self.hook = self.hook, None
+            h()
+        self.seen += 1
+
+    def __getitem__(self, i):
+        if isinstance(i, slice):
+            return list.__getitem__(self, i)
+        self._tick()
+        return list.__getitem__(self, i)
+
+    def __iter__(self):
+        for i in range(len(self)):
+            self._tick()
+            yield list.__getitem__(self, i)
+
+    def __reversed__(self):
+        for i in range(len(self) - 1, -1, -1):
+            self._tick()
+            yield list.__getitem__(self, i)
+
+
+def _opts(o):
+    o = dict(o)
+    if "allowlist" in o:
+        o["allowlist"] = dict(o["allowlist"])
+    return o
+
+
+def interleaved(a_lines, a_opt, b_lines, b_opt, at):
+    """-> (output of A, output of B) with B cleaned on the same cleaner before A's line number `at` (in processing order) is fetched;
+    at == None: no interleaving, each spec on a cleaner of its own"""
+    mk = lambda: K.make_cleaner(K.Cfg(obfuscate=False), keywords=["acme"], patterns=["SECRET"])  # noqa
+    if at is None:
+        return mk().clean_content(list(a_lines), **_opts(a_opt)), mk().clean_content(list(b_lines), **_opts(b_opt))
+    cl = mk()
+    got = {}
+    ya = Yielding(a_lines)
+    ya.at = at
+    ya.hook = lambda: got.__setitem__("b", cl.clean_content(list(b_lines), **_opts(b_opt)))
+    out_a = cl.clean_content(ya, **_opts(a_opt))
+    if "b" not in got:
+        got["b"] = cl.clean_content(list(b_lines), **_opts(b_opt))
+    return out_a, got["b"]
+
+
+SPEC_KINDS = ["keep", "secret", "acme", "password", "empty"]
+
+
+def gen_spec_lines(en, tag, kinds):
+    """one line per kind, each with one symbolic character"""
+    lines = []
+    for i, k in enumerate(kinds):
+        c = sstr.fresh_str(en, "%s%d" % (tag, i), 1, "xyz .:")
+        lines.append({"keep": lambda: cat(tag, " keep word ", c), "secret": lambda: cat(tag, " SECRET keep ", c), "acme": lambda: cat(tag, " vendor acme inc ", c),
+                      "password": lambda: cat(tag, " password=", c, "q keep"), "empty": lambda: ""}[k]())
+    return lines
+
+
+def make_interleaved(na, nb):
+    def fn(en):
+        a_opt = A_OPTIONS[en.choice("a_opt", len(A_OPTIONS))]
+        b_opt = B_OPTIONS[en.choice("b_opt", len(B_OPTIONS))]
+        # every kind of line occurs in both specs; the order of the kinds is rotated
+        ra, rb = en.choice("rot_a", 2), en.choice("rot_b", 2)
+        a_lines = gen_spec_lines(en, "A", (SPEC_KINDS[ra * 2:] + SPEC_KINDS[:ra * 2])[:na])
+        b_lines = gen_spec_lines(en, "B", (SPEC_KINDS[1 + rb * 2:] + SPEC_KINDS[:1 + rb * 2])[:nb])
+        at = en.choice("switch_before_line", na)
+        case = lambda mv: {"kind": "interleaved", "a": [mv.str(x) for x in a_lines], "b": [mv.str(x) for x in b_lines], "a_opt": a_opt, "b_opt": b_opt, "at": at}  # noqa
+        en.note_sample(case)
+        ref_a, ref_b = interleaved(a_lines, a_opt, b_lines, b_opt, None)
+        out_a, out_b = interleaved(a_lines, a_opt, b_lines, b_opt, at)
+        for nm, out, ref in (("first", out_a, ref_a), ("second", out_b, ref_b)):
+            same = len(out) == len(ref) and all(len(x) == len(y) for x, y in zip(out, ref))
+            en.must_hold(same, "order-fixed", case, detail="the %s spec has %d lines when the other spec is cleaned between two of its lines, %d on its own" % (nm, len(out), len(ref)))
+            if same:
+                for x, y in zip(out, ref):
+                    f = f_eq(x, y)
+                    en.must_hold(f if isinstance(f, bool) else SBool(f), "order-fixed", case,
+                                 detail="the %s spec's output differs when another spec is cleaned by the same cleaner between two of its lines" % nm)
+    return fn
+
+
 def obligations(tier):
     thorough = tier == "thorough"
     enc = [CL.Cleaner.clean_content, CL.Cleaner.__init__, SF.ContentProvider._clean_content, SF.ContentProvider.write, SF.DatasourceProvider.__init__]
@@ -347,6 +441,14 @@ def obligations(tier):
         Obligation("O4-hash-seeds", make_seeds(), ["order-fixed"],
                    desc="a fixed corpus (IPv4, IPv6, MAC, host names, keywords, password) cleaned in pristine interpreters under six hash seeds: one output (a safety net for seed dependence of any origin; finite exploration)",
                    bounds={"corpus lines": len(SEED_CORPUS), "PYTHONHASHSEED": [0, 1, 2, 7, 123, 4242]}, encoded=[CL.Cleaner.clean_content], budget_s=120, replay="order", check_sample=True),
+        Obligation("O5-interleaved-specs", make_interleaved(5 if thorough else 4, 4 if thorough else 3), ["order-fixed"],
+                   desc="one cleaner shared by two collection threads (parallel collection, obfuscation off): the second spec - other exemptions / allow-list - is cleaned entirely "
+                        "between two lines of the first; both outputs equal what each spec gives on a cleaner of its own",
+                   bounds={"lines": "%d + %d, one symbolic character each" % ((5, 4) if thorough else (4, 3)), "line kinds": "each of %r once per spec, two rotations" % (SPEC_KINDS,), "options of the first spec": A_OPTIONS,
+                           "options of the second spec": B_OPTIONS, "switch point": "before any one line of the first spec is fetched (list indexing / iteration)"},
+                   stubs=stubs + ["thread switch modelled at line granularity: a list subclass whose item access runs the other thread's whole clean_content call"],
+                   outside=["switch points inside the cleaning of one line", "more than one switch", "obfuscators with a database (their numbering legitimately depends on arrival order)"],
+                   encoded=[CL.Cleaner.clean_content], budget_s=600 if thorough else 150, replay="order", check_sample=True),
         Obligation("O2-shape", make_shape(4 if thorough else 3), ["shape", "empty-not-stored"],
                    desc="lines that are kept / changed / dropped / empty / blank: output in input order, one output line per surviving input line, all-blank collapses to nothing and is not stored",
                    bounds={"lines": 4 if thorough else 3, "line kinds": LINE_KINDS, "configurations": "pattern redaction + password masking, or no parser applicable at all"},
@@ -409,6 +511,11 @@ def _native(case):
         return ["the allow-list stage keeps %d different line sets over PYTHONHASHSEED 0..11: %s" % (len(outs), outs)] if len(outs) > 1 else []
     if case["kind"] == "seeds":
         return corpus_under_seeds(case["seeds"])
+    if case["kind"] == "interleaved":
+        ref = interleaved(case["a"], case["a_opt"], case["b"], case["b_opt"], None)
+        got = interleaved(case["a"], case["a_opt"], case["b"], case["b_opt"], case["at"])
+        return [] if (list(got[0]), list(got[1])) == (list(ref[0]), list(ref[1])) else [
+            "two specs cleaned by one cleaner, the second scheduled before line %d (processing order) of the first: %r; each on a cleaner of its own: %r" % (case["at"], got, ref)]
     if case["kind"] == "zero-lines":
         cl = K.make_cleaner(K.Cfg(obfuscate=False))
         written, err = provider_write(cl, case["content"], [])
@@ -459,7 +566,9 @@ def validate(tier):
     n = 0
     for case in [{"kind": "shape", "kinds": ["kept", "dropped", "empty"], "lines": ["A keep x", "B SECRET y", ""], "no_parsers": False},
                  {"kind": "shape", "kinds": ["empty", "empty"], "lines": ["", ""], "no_parsers": True},
-                 {"kind": "shape", "kinds": ["empty", "spaces"], "lines": ["", "  "], "no_parsers": True}]:
+                 {"kind": "shape", "kinds": ["empty", "spaces"], "lines": ["", "  "], "no_parsers": True},
+                 {"kind": "interleaved", "a": ["A SECRET keep x", "A vendor acme inc y", "A keep word z"], "b": ["B SECRET keep x", "B password=zq keep"],
+                  "a_opt": A_OPTIONS[1], "b_opt": B_OPTIONS[0], "at": 1}]:
         bad = _native(case)
         assert not bad, (case, bad)
         n += 1
